@@ -80,7 +80,7 @@ TRUSTED = ['z3 nonlinear arithmetic and quantifier instantiation']
 
 
 def tasks(tier):
-    t = ['arith', 'stencil', 'cellsize', 'bounds', 'ncells', 'sound', 'update', 'cache', 'cellkey', 'octroot', 'pidspace', 'sortkeys', 'eshreach', 'boxes27', 'sentinel', 'sortnbrs', 'shreach', 'pidslices', 'context', 'query', 'complete', 'list', 'repoint', 'zrows', 'sortseg', 'sortflag',
+    t = ['arith', 'stencil', 'cellsize', 'bounds', 'ncells', 'sound', 'update', 'cache', 'cellkey', 'octroot', 'pidspace', 'sortkeys', 'eshreach', 'boxes27', 'sentinel', 'sortnbrs', 'shreach', 'pidslices', 'stalecount', 'context', 'query', 'complete', 'list', 'repoint', 'zrows', 'sortseg', 'sortflag',
             'lemma', 'oracle']
     return t + ['canary']
 
@@ -2771,6 +2771,111 @@ def task_pidslices(ctx, repo):
                                       z3.And(*g), W_))
     ctx.prove('pidslices.children_get_disjoint_contiguous_slices',
               z3only(obs), use_nf=False, replay=replay_oct_threads)
+
+
+# -------------------------------------------------------------- stalecount
+NNPS_FILES = ['pysph/base/nnps_base.pyx', LL, 'pysph/base/box_sort_nnps.pyx',
+              'pysph/base/spatial_hash_nnps.pyx', CI_PYX,
+              'pysph/base/z_order_nnps.pyx',
+              'pysph/base/stratified_hash_nnps.pyx',
+              'pysph/base/stratified_sfc_nnps.pyx',
+              'pysph/base/octree_nnps.pyx', OCT_PYX]
+
+
+def task_stalecount(ctx, repo):
+    """NNPSParticleArrayWrapper.np is the particle count AT CONSTRUCTION of
+    the wrapper (set once in __init__, never refreshed); particles are added
+    and removed afterwards (inlets, ghosts).  No function of the neighbour
+    search reads it: every scan over an array takes its bound from
+    get_number_of_particles() or from the length of the array it scans."""
+    obs = []
+    m0 = repo.cython_module(NB)
+    init = m0.methods('NNPSParticleArrayWrapper')['__init__']
+    sets = [ast.unparse(n_) for n_ in ast.walk(init)
+            if isinstance(n_, ast.Assign) and
+            ast.unparse(n_.targets[0]) == 'self.np']
+    obs.append(Obligation('stalecount.np_is_set_once_at_construction', [],
+                          z3.BoolVal(sets == [
+                              'self.np = pa.get_number_of_particles()']),
+                          m0.path, extra=dict(assignments=sets)))
+    ctx.function(m0, init, 'NNPSParticleArrayWrapper.__init__')
+    reads = []
+    nfun = 0
+    for rel in NNPS_FILES:
+        m = repo.cython_module(rel)
+        for cn in m.classes:
+            for fname, fn in m.methods(cn).items():
+                nfun += 1
+                for n_ in ast.walk(fn):
+                    if isinstance(n_, ast.Attribute) and n_.attr == 'np' \
+                            and isinstance(n_.ctx, ast.Load) and not (
+                                isinstance(n_.value, ast.Name) and
+                                n_.value.id in ('numpy',)):
+                        reads.append('%s:%s.%s: %s' % (
+                            rel.split('/')[-1], cn, fname, ast.unparse(n_)))
+    obs.append(Obligation('stalecount.nobody_reads_the_construction_count',
+                          [], z3.BoolVal(not reads and nfun > 100), NB,
+                          extra=dict(reads=reads[:5], functions=nfun)))
+    ctx.prove('stalecount.scans_use_the_current_particle_count', obs,
+              replay=replay_added_particles)
+
+
+ADDED = r"""
+import json, sys
+d = json.load(sys.stdin)
+if d.get('built'): sys.path.insert(0, d['built'])
+import numpy as np
+from pysph.base.utils import get_particle_array
+from pysph.base import nnps
+from cyarray.api import UIntArray
+bad = None
+for cls in ('LinkedListNNPS', 'BoxSortNNPS', 'SpatialHashNNPS', 'CellIndexingNNPS', 'OctreeNNPS'):
+    for dim in (1, 2):
+        for cache in (False, True):
+            x0 = np.arange(0.05, 1.0, 0.1)
+            if dim == 2:
+                X, Y = np.meshgrid(x0, x0); X, Y = X.ravel(), Y.ravel()
+            else:
+                X, Y = x0, np.zeros_like(x0)
+            pa = get_particle_array(name='a', x=X, y=Y, h=0.11)
+            nn = getattr(nnps, cls)(dim=dim, particles=[pa], radius_scale=2.0, cache=cache)
+            # an inlet appends four layers into cells that were empty
+            for layer in range(4):
+                xs = np.full_like(x0, 1.05 + 0.1 * layer) if dim == 2 else np.array([1.05 + 0.1 * layer])
+                ys = x0 if dim == 2 else np.zeros(1)
+                pa.add_particles(x=xs, y=ys, h=np.full_like(xs, 0.11))
+                nn.update_domain(); nn.update()
+            xa = pa.get('x', only_real_particles=False); ya = pa.get('y', only_real_particles=False)
+            nb = UIntArray()
+            for i in range(len(xa)):
+                nn.get_nearest_particles(0, 0, i, nb)
+                got = nb.get_npy_array().tolist()
+                d2 = (xa - xa[i])**2 + (ya - ya[i])**2
+                want = set(np.where(d2 < 0.22**2 * (1 - 1e-9))[0].tolist()); tie = set(np.where(np.abs(d2 - 0.22**2) <= 1e-9 * 0.22**2)[0].tolist())
+                if len(got) != len(set(got)) or (set(got) ^ want) - tie:
+                    bad = dict(algorithm=cls, dim=dim, cache=cache, particle=i, returned=sorted(got)[:12], expected=sorted(want)[:12],
+                               note='particles were appended after the NNPS was constructed'); break
+            if bad: break
+        if bad: break
+    if bad: break
+print(json.dumps(dict(bad=bad)))
+"""
+
+
+def replay_added_particles(model, ob):
+    if os.environ.get('PYVC_NO_BUILD_REPLAY'):
+        return dict(reproduced=False, note='build replay disabled')
+    try:
+        tree, msg = native.shared_build()
+        if tree is None:
+            return dict(reproduced=False, note=msg)
+        r = native.run_venv(ADDED, dict(built=tree), timeout=900, cwd='/tmp')
+    except Exception as e:
+        return dict(reproduced=False, note=str(e)[-300:])
+    if r['bad']:
+        return dict(reproduced=True, how='extensions built from the working '
+                    'tree; particles appended after construction', **r['bad'])
+    return dict(reproduced=False)
 
 
 # ------------------------------------------------------------------ context
